@@ -113,7 +113,7 @@ pub fn make_case(seed: u64, idx: u64, tier: Tier, restarts: bool) -> (Case, Rng)
         let gp = GenParams {
             inputs: 2 + r.below(4) as u32,
             xs: r.below(3) as u32,
-            nodes: 4 + r.below(tier.pick(18, 50)) as u32,
+            nodes: 4 + r.below(tier.pick(28, 50)) as u32,
             max_ops: 1 + r.usize_below(4),
             p_firewall: 10 + r.below(30),
             p_projection: r.below(30),
@@ -122,7 +122,7 @@ pub fn make_case(seed: u64, idx: u64, tier: Tier, restarts: bool) -> (Case, Rng)
         gen_program(&mut r, &gp)
     };
     let hp = HistParams {
-        steps: 8 + r.usize_below(tier.pick(30, 120)),
+        steps: 8 + r.usize_below(tier.pick(55, 120)),
         restarts,
         par: r.chance(1, 3),
         late_inputs: true,
@@ -218,7 +218,7 @@ pub fn case_json(seed: u64, idx: u64, case: &Case, cfg: &CaseCfg) -> Json {
 
 pub fn worker(ctx: &WorkerCtx, prop: &str) -> Report {
     let mut rep = Report::default();
-    let ncases: u64 = if ctx.part == "miri" { 1 } else { ctx.pick(600, 15_000) };
+    let ncases: u64 = if ctx.part == "miri" { 1 } else { ctx.pick(1200, 15_000) };
     let only: Option<u64> = ctx.replay.as_ref().and_then(|p| {
         let s = std::fs::read_to_string(p).ok()?;
         let j = Json::parse(&s).ok()?;
